@@ -39,20 +39,21 @@ type modelEntry struct {
 }
 
 type caseSpec struct {
-	Index     int              `json:"index"`
-	Backend   string           `json:"backend"`
-	Entries   []zipgen.Entry   `json:"entries"`
-	Recursive bool             `json:"recursive"`
-	MaxFile   int64            `json:"max_file_size"`
-	MaxTotal  uint64           `json:"max_total_size"`
-	MaxCount  int64            `json:"max_file_count"`
-	MaxDepth  int64            `json:"max_depth"`
-	Lying     string           `json:"lying,omitempty"` // "", declared-smaller, declared-larger, bad-crc
-	Decoy     string           `json:"decoy,omitempty"`
-	Nesting   int              `json:"nesting"`
-	Ambiguous bool             `json:"ambiguous"` // duplicates / decoys: judged by the disk walk only
-	Placement string           `json:"limit_placement"`
-	True      map[string]int64 `json:"true_figures"`
+	Index      int              `json:"index"`
+	Backend    string           `json:"backend"`
+	Entries    []zipgen.Entry   `json:"entries"`
+	Recursive  bool             `json:"recursive"`
+	MaxFile    int64            `json:"max_file_size"`
+	MaxTotal   uint64           `json:"max_total_size"`
+	MaxCount   int64            `json:"max_file_count"`
+	MaxDepth   int64            `json:"max_depth"`
+	Lying      string           `json:"lying,omitempty"`               // "", declared-smaller, declared-larger, bad-crc
+	LyingDepth int              `json:"lying_entry_nesting,omitempty"` // 0: entry of the archive itself; n: of an archive nested n levels down
+	Decoy      string           `json:"decoy,omitempty"`
+	Nesting    int              `json:"nesting"`
+	Ambiguous  bool             `json:"ambiguous"` // duplicates / decoys: judged by the disk walk only
+	Placement  string           `json:"limit_placement"`
+	True       map[string]int64 `json:"true_figures"`
 }
 
 func depthOf(p string) int64 { return int64(strings.Count(p, "/")) }
@@ -201,17 +202,33 @@ func genCase(r *vrun.Run, idx int) caseSpec {
 	id := 0
 	c.Entries = genEntries(rng, r, 0, maxNest, &id)
 	c.Nesting = maxNest
-	// lying headers on one top-level plain entry
+	// lying headers on one plain entry: of the archive itself or, in recursive mode, of one of the archives nested in it
 	if rng.IntN(5) == 0 {
+		level := c.Entries
+		lyingDepth := 0
+		for c.Recursive && rng.IntN(2) == 0 {
+			var nested []int
+			for i, e := range level {
+				if e.Nested != nil {
+					nested = append(nested, i)
+				}
+			}
+			if len(nested) == 0 {
+				break
+			}
+			level = level[nested[rng.IntN(len(nested))]].Nested
+			lyingDepth++
+		}
 		var plain []int
-		for i, e := range c.Entries {
+		for i, e := range level {
 			if !e.Dir && e.Nested == nil && len(e.Data) > 2 {
 				plain = append(plain, i)
 			}
 		}
 		if len(plain) > 0 {
 			i := plain[rng.IntN(len(plain))]
-			e := &c.Entries[i]
+			e := &level[i]
+			c.LyingDepth = lyingDepth
 			switch rng.IntN(4) {
 			case 3:
 				// zip64 header declaring a size which becomes negative once converted to a signed 64-bit integer
@@ -366,6 +383,7 @@ func runCase(r *vrun.Run, c caseSpec, scratch string) {
 	r.ObsSet("limit_placements", c.Placement)
 	r.ObsSet("nesting_levels", fmt.Sprint(c.Nesting))
 	if c.Lying != "" {
+		r.ObsSet("lying_entry_positions", fmt.Sprintf("%s@nesting-%d", c.Lying, min(c.LyingDepth, 2)))
 		r.ObsSet("lying_header_kinds", c.Lying)
 	}
 	if c.Decoy != "" {
